@@ -77,7 +77,7 @@ add("C08", "fault_enumeration", "model-free tiling monitor over the warn-mode bo
 
 add("C09", "exploration", "differential on schedules: stream decode vs per-message decodes (boundaries and pairing from the reference), plus events_to_objs pairing",
     "Generated streams (sessions, encryption, failures, same code back to back, ending after a command) and per-file corpus streams; "
-    "the stream's events must equal the concatenation of the individual decodes and objects must pair one per message.",
+    "the stream's events must equal the concatenation of the individual decodes, each individual decode the reference's events, and objects must pair one per message.",
     "Message boundaries and the command->response pairing come from the reference interpreter.", "DESIGN.md 4/C09")
 add("C10", "fault_enumeration", "ordering law over the pull log of a counting byte source (look-ahead distance), prefix stability at every cut point, result equality across source kinds, pull logs of the lazy front-ends",
     "Every cut point of the base inputs (quick: sampled for long inputs), 10 source kinds, hex / swtpm renderings through a counting "
@@ -87,14 +87,14 @@ add("C11", "exploration", "round-trip identities between decoder object, events_
     "All structure types (incl. empty structured TPM2Bs, every payload-less union arm), all codes x directions x configurations, corpus.",
     "Equality is the library's own == plus identity of declared types and value classes.", "DESIGN.md 4/C11")
 add("C12", "exploration", "history checker: every completed decode compared with the first decode of the same arguments under sequential, step-wise interleaved and threaded schedules",
-    "Pools with encrypted parameter areas of different commands, stand-alone structures (whole / truncated / warn mode) and "
-    "value-faulted variants; seeded schedulers over live generators; 8 threads with 1us switch interval and a barrier-synchronised "
+    "Pools with encrypted parameter areas of different commands, stand-alone structures (whole / truncated / warn mode), "
+    "value-faulted variants and the same stream through the pcapng (Ethernet / IPv4 / raw link layers) and hex front-ends; seeded schedulers over live generators; 8 threads with 1us switch interval and a barrier-synchronised "
     "first-use race; sampled items are also compared with the same decode in a fresh interpreter; distinct schedules counted by hash.",
     "No shared-memory concurrency exists in the code; schedules are interleavings of independent generators.", "DESIGN.md 4/C12")
 add("C14", "exploration", "row model computed from recorded events compared line by line with the pretty printer and the events printer",
     "Event streams of well-formed and malformed inputs in both modes; rows, order, byte buffers, bit rows, warnings, indentation "
     "and value text are compared after stripping colour codes and collapsing blanks.",
-    "Rows of non-byte list parents are optional. TPM_RC bit rows come from attributes() (validated by C18).", "DESIGN.md 4/C14")
+    "The row of a non-byte list parent may come late; it is mandatory when the list has no elements. Sequences of different response codes / attribute words are printed back to back in one process. TPM_RC bit rows come from attributes() (validated by C18).", "DESIGN.md 4/C14")
 add("C15", "exploration", "differential against the binary decode of the carried bytes for noisy container renderings + reference recognisers over exhaustive small-alphabet strings",
     "hex / swtpm-log / pcapng / auto on generated streams with layout noise; all strings to length 5 (6) over 10 symbols for the hex "
     "scanner and to 4 (5) tokens over 14 tokens for the swtpm scanner.",
